@@ -6,6 +6,7 @@ Search: for every applied step (random primitive steps and every step emitted by
 Transform operation) and every old position: size delta = sum(new - old) over the map's ranges and
 every token outside the replaced ranges is found unchanged at the mapped position.
 """
+from prosemirror.transform import AddMarkStep, RemoveMarkStep  # noqa: E402
 from prosemirror.transform import Transform
 
 from .. import core, gen, ops, schemas
@@ -69,6 +70,45 @@ def run(ctx):
                 ctx.mismatch(op, replay, exp, out)
         del reqs[:], metas[:]
 
+    def one_doc(info, d, docs):
+        # primitive steps
+        for _ in range(ctx.budget(20, 40)):
+            if ctx.time_left() < 0:
+                break
+            step = gen.gen_step(rng, info, d, docs)
+            one_step(info, d, step)
+        # aimed: add / remove a mark that is present somewhere in the document over a wide range (several differently marked
+        # runs become equal and are merged)
+        present = []
+        d.descendants(lambda n, p, par, i: present.extend(n.marks) if n.is_inline else None)
+        for _ in range(min(len(present), ctx.budget(3, 6))):
+            m = rng.choice(present)
+            f, t = gen.random_range(rng, d)
+            one_step(info, d, (AddMarkStep if rng.random() < 0.4 else RemoveMarkStep)(f, t, m))
+        # steps emitted by high-level operations; Transform.mapping
+        tr = Transform(d)
+        for _ in range(ctx.budget(4, 8)):
+            name, args, thunk = ops.plan_op(rng, info, tr.doc, docs)
+            n0 = len(tr.steps)
+            st, val, added = ops.run_op(tr, thunk)
+            for k in range(n0, len(tr.steps)):
+                check_step(ctx, info, tr.docs[k], tr.steps[k], tr.docs[k + 1] if k + 1 < len(tr.docs) else tr.doc, name)
+        maps = [list(x.ranges) for x in tr.mapping.maps]
+        exp = [list(s.get_map().ranges) for s in tr.steps]
+        if maps != exp or tr.mapping.from_ != 0 or tr.mapping.to != len(tr.steps):
+            ctx.violation("transform-mapping", "Transform.mapping is not the list of the recorded steps' maps",
+                          {"schema": info.name, "doc": d.to_json(), "steps": [s.to_json() for s in tr.steps], "maps": maps})
+
+    def one_step(info, d, step):
+        st, res = outcome(lambda: step.apply(d))
+        sj = info.step(step)
+        stm, m = outcome(step.get_map)
+        if stm == "ok":
+            reqs.append({"op": "getMap", "step": sj})
+            metas.append(("getMap", {"schema": info.name, "step": step.to_json()}, step_map(m)))
+        if st == "ok" and res.doc is not None:
+            check_step(ctx, info, d, step, res.doc, "primitive")
+
     fam = schemas.family()
     for si in range(ctx.budget(24, 60)):
         if len(reqs) >= 15000:
@@ -77,33 +117,11 @@ def run(ctx):
         schema = info.schema
         ctx.driver.add_schema(info)
         docs = [gen.gen_doc(rng, schema, budget=rng.choice([6, 12, 25])) for _ in range(ctx.budget(5, 10))]
+        # documents made of short runs with varied marks: a primitive mark step over several runs makes neighbours equal and
+        # has them merged (its map stays empty: nothing may move or disappear)
+        docs += [x for x in (gen.gen_marky_doc(rng, schema) for _ in range(ctx.budget(1, 3))) if x is not None]
         for d in docs:
-            # primitive steps
-            for _ in range(ctx.budget(20, 40)):
-                if ctx.time_left() < 0:
-                    break
-                step = gen.gen_step(rng, info, d, docs)
-                st, res = outcome(lambda: step.apply(d))
-                sj = info.step(step)
-                stm, m = outcome(step.get_map)
-                if stm == "ok":
-                    reqs.append({"op": "getMap", "step": sj})
-                    metas.append(("getMap", {"schema": info.name, "step": step.to_json()}, step_map(m)))
-                if st == "ok" and res.doc is not None:
-                    check_step(ctx, info, d, step, res.doc, "primitive")
-            # steps emitted by high-level operations; Transform.mapping
-            tr = Transform(d)
-            for _ in range(ctx.budget(4, 8)):
-                name, args, thunk = ops.plan_op(rng, info, tr.doc, docs)
-                n0 = len(tr.steps)
-                st, val, added = ops.run_op(tr, thunk)
-                for k in range(n0, len(tr.steps)):
-                    check_step(ctx, info, tr.docs[k], tr.steps[k], tr.docs[k + 1] if k + 1 < len(tr.docs) else tr.doc, name)
-            maps = [list(x.ranges) for x in tr.mapping.maps]
-            exp = [list(s.get_map().ranges) for s in tr.steps]
-            if maps != exp or tr.mapping.from_ != 0 or tr.mapping.to != len(tr.steps):
-                ctx.violation("transform-mapping", "Transform.mapping is not the list of the recorded steps' maps",
-                              {"schema": info.name, "doc": d.to_json(), "steps": [s.to_json() for s in tr.steps], "maps": maps})
+            ctx.guard(lambda: one_doc(info, d, docs), "steps on one document")
     flush()
     return ctx.finish(
         rule="a case is (schema, document, successfully applied step) where the step is a random primitive step or one emitted "
